@@ -286,7 +286,7 @@ theorem inv_disconnect (s : Srv) (st : LState) (a : Addr) (e : Ent) (hi : Inv s 
 
 /-! ### the pieces of the main loop -/
 
-theorem pget_pset_self (p : Pool) (a : Addr) (v : Ent) : pget (pset p a v) a = some v := by
+theorem lc_pget_pset_self (p : Pool) (a : Addr) (v : Ent) : pget (pset p a v) a = some v := by
   induction p with
   | nil => simp [pset, pget]
   | cons x t ih =>
@@ -365,7 +365,7 @@ theorem handleItem_step (sz : Sizes) (C : Crypto) (s : Srv) (t : Int) (it : Item
       · exact ⟨trivial, hi⟩
       · have h0 := inv_new s st it.addr { isServer := true, keepAlive := s.cfg.keepAlive, outgoingTimeout := s.cfg.outgoingTimeout } hi ht
         have hg : pget (pset s.temps it.addr ⟨s.born, { isServer := true, keepAlive := s.cfg.keepAlive, outgoingTimeout := s.cfg.outgoingTimeout }⟩) it.addr
-            = some ⟨s.born, { isServer := true, keepAlive := s.cfg.keepAlive, outgoingTimeout := s.cfg.outgoingTimeout }⟩ := pget_pset_self _ _ _
+            = some ⟨s.born, { isServer := true, keepAlive := s.cfg.keepAlive, outgoingTimeout := s.cfg.outgoingTimeout }⟩ := lc_pget_pset_self _ _ _
         have h1 := fun c => inv_temp_update { s with temps := pset s.temps it.addr ⟨s.born, { isServer := true, keepAlive := s.cfg.keepAlive, outgoingTimeout := s.cfg.outgoingTimeout }⟩, born := s.born + 1 } st it.addr
           ⟨s.born, { isServer := true, keepAlive := s.cfg.keepAlive, outgoingTimeout := s.cfg.outgoingTimeout }⟩ c h0 hg
         split
@@ -453,7 +453,7 @@ theorem sweepConns_step (C : Crypto) (sz : Sizes) (t : Int) (s : Srv) (snap : Li
         have hn := legal_neutral st _ hout
         exact ⟨(legal_append _ _ _).mpr ⟨hn.1, by rw [hn.2]; exact h2.1⟩, by rw [after_append, hn.2]; exact h2.2.1, h2.2.2.1, h2.2.2.2⟩
 
-theorem pget_pset_ne (p : Pool) (a b : Addr) (v : Ent) (h : b ≠ a) : pget (pset p a v) b = pget p b := by
+theorem lc_pget_pset_ne (p : Pool) (a b : Addr) (v : Ent) (h : b ≠ a) : pget (pset p a v) b = pget p b := by
   induction p with
   | nil =>
     have : ¬ a = b := fun e => h e.symm
@@ -470,7 +470,7 @@ theorem pget_pset_ne (p : Pool) (a b : Addr) (v : Ent) (h : b ≠ a) : pget (pse
       · simp [hb]
       · simp [hb, ih]
 
-theorem pget_pdel_ne (p : Pool) (a b : Addr) (h : b ≠ a) : pget (pdel p a) b = pget p b := by
+theorem lc_pget_pdel_ne (p : Pool) (a b : Addr) (h : b ≠ a) : pget (pdel p a) b = pget p b := by
   induction p with
   | nil => rfl
   | cons x t ih =>
@@ -503,7 +503,7 @@ theorem sweepTemps_step (C : Crypto) (sz : Sizes) (t : Int) (s : Srv) (snap : Li
     · apply ih _ st (inv_temp_remove s st addr hi) _ hnd.2
       intro y hy
       simp only
-      rw [pget_pdel_ne _ _ _ (hne y hy)]
+      rw [lc_pget_pdel_ne _ _ _ (hne y hy)]
       exact hsnap y (List.mem_cons_of_mem _ hy)
     · have hinv := inv_temp_update s st addr e (updateOut C sz addr e.conn t).1 hi hcur
       have hout := updateOut_neutral C sz addr e.conn t
@@ -511,7 +511,7 @@ theorem sweepTemps_step (C : Crypto) (sz : Sizes) (t : Int) (s : Srv) (snap : Li
         (by
           intro y hy
           simp only
-          rw [pget_pset_ne _ _ _ _ (hne y hy)]
+          rw [lc_pget_pset_ne _ _ _ _ (hne y hy)]
           exact hsnap y (List.mem_cons_of_mem _ hy)) hnd.2
       generalize sweepTemps C sz t { s with temps := pset s.temps addr { e with conn := (updateOut C sz addr e.conn t).1 } } rest = r2 at h2
       obtain ⟨s2, e2⟩ := r2
